@@ -1214,8 +1214,12 @@ class Executor(Generic[TContext]):
 
         # validation only allows equivalent streams on multiple fields, so it is
         # safe to only check the first field_node for the stream directive
+        first_field_details = field_details_list[0]
         stream = get_directive_values(
-            GraphQLStreamDirective, field_details_list[0].node, self.variable_values
+            GraphQLStreamDirective,
+            first_field_details.node,
+            self.variable_values,
+            first_field_details.fragment_variable_values,
         )
 
         if not stream or stream.get("if") is False:
